@@ -8,11 +8,36 @@ are in the state the slot says.
 -/
 namespace Litep2pVerif.Notif
 
+/-- Is the id kept in `Closed{pending_open}` still tracked in `pending_outbound`? -/
+def liveFn (slot : Slot) (pd : List Sid) : Bool :=
+  match slot with
+  | some (.closed (some x)) => pd.contains x
+  | _ => true
+
+def liveOf (s : PeerSys) : Bool := liveFn s.slot s.pending
+
+theorem pendOf_fix (slot : Slot) (l : Bool) : pendOf slot (liveFn slot (pendOf slot l)) = pendOf slot l := by
+  rcases slot with _ | st
+  · rfl
+  · cases st <;> try rfl
+    rename_i pend
+    cases pend <;> cases l <;> simp [pendOf, liveFn, isClosedSome, slotSid]
+
+theorem pendOf_mem {slot : Slot} {l : Bool} {x : Sid} (h : x ∈ pendOf slot l) : pendOf slot l = [x] := by
+  unfold pendOf at h ⊢
+  split at h
+  · simp at h
+  · rename_i hc
+    rw [if_neg hc]
+    rcases hs : slotSid slot with _ | y
+    · rw [hs] at h; simp at h
+    · rw [hs] at h; simp at h; simp [h]
+
 structure Inv2 (s : PeerSys) : Prop where
   i1 : Inv1 s
   c : s.connected = slotConn s.slot
-  rq : s.requested = (slotSid s.slot).toList
-  pd : s.pending = (slotSid s.slot).toList
+  rq : s.requested = pendOf s.slot (liveOf s)
+  pd : s.pending = pendOf s.slot (liveOf s)
   ho : s.hsOut.isSome = outNeg s.slot
   hi : s.hsIn.map (·.2) = inbEntry s.slot
   vl : ∀ q, slotVal s.slot = some q → q ∈ s.validations
@@ -166,7 +191,7 @@ structure Before (s s1 : PeerSys) (ev : Ev) : Prop where
   hsIn : s1.hsIn = s.hsIn
   connected : s1.connected = s.connected
   notices : s1.notices ≤ s.notices
-  requested : isConnClosed ev = false → s1.requested = reqBefore s.slot ev
+  requested : isConnClosed ev = false → s1.requested = reqBefore s.slot (liveOf s) ev
   validations : isValidation ev = false → s1.validations = s.validations
 
 /-- What the bookkeeping after the handler (`post`) does. -/
@@ -194,7 +219,11 @@ theorem not_validating_of_idle {slot : Slot} (h : idle slot = true) : isValidati
   · rfl
   · cases st <;> simp_all [idle, isValidating]
 
-theorem handler_inv2 {s s1 s2 : PeerSys} {ev : Ev} (h : Inv2 s) (hi1 : Inv1 s2) (hpre : Pre s.slot ev = true)
+theorem pendOf_connClosed (slot : Slot) (l : Bool) : pendOf (handle slot .connClosed).1 l = [] := by
+  simp [pendOf, slotSid_connClosed]
+
+theorem handler_inv2 {s s1 s2 : PeerSys} {ev : Ev} (h : Inv2 s) (hi1 : Inv1 s2)
+    (hpre : Pre s.slot (liveOf s) ev = true)
     (hbz : (Busy s || decide (s.notices > 0)) = true → isNotice ev = true)
     (hpipe : ∀ p, evPipe ev = some p → s.hsIn.map (·.1) = some p)
     (B : Before s s1 ev) (A : After (runHandler s1 ev) s2 ev) : Inv2 s2 := by
@@ -210,25 +239,32 @@ theorem handler_inv2 {s s1 s2 : PeerSys} {ev : Ev} (h : Inv2 s) (hi1 : Inv1 s2) 
   have hlog : s2.log = (if takesUp s.slot (handle s.slot ev) = true then s.log ++ [.request] else s.log) ++
       newEvs s.tasks (handle s.slot ev).2 := by
     rw [A.log, rh_log, B.slot, B.log, B.tasks]
+  have hpend : s2.pending = pendOf s2.slot (liveAfter s.slot ev (liveOf s)) := by
+    rw [A.pending, rh_pending, B.slot, B.pending, h.pd, hslot, pend_pure _ _ _ hpre]
+  have hlive : pendOf s2.slot (liveOf s2) = pendOf s2.slot (liveAfter s.slot ev (liveOf s)) := by
+    have : liveOf s2 = liveFn s2.slot (pendOf s2.slot (liveAfter s.slot ev (liveOf s))) := by
+      show liveFn s2.slot s2.pending = _
+      rw [← hpend]
+    rw [this, pendOf_fix]
   refine ⟨hi1, ?_, ?_, ?_, ?_, ?_, ?_, ?_, ?_, ?_, ?_, ?_⟩
   · -- connected
-    rw [A.connected, rh_connected, B.connected, h.c, hslot, conn_pure _ _ hpre]
+    rw [A.connected, rh_connected, B.connected, h.c, hslot, conn_pure _ _ _ hpre]
   · -- requested
-    rw [A.requested, hslot]
+    rw [hlive, A.requested, hslot]
     by_cases hc : isConnClosed ev = true
     · rw [if_pos hc]
       have : ev = .connClosed := by cases ev <;> simp_all [isConnClosed]
       subst this
-      rw [slotSid_connClosed]; rfl
-    · rw [if_neg hc, rh_requested, B.slot, B.requested (by simpa using hc), req_pure _ _ hpre]
+      rw [pendOf_connClosed]
+    · rw [if_neg hc, rh_requested, B.slot, B.requested (by simpa using hc), req_pure _ _ _ hpre]
   · -- pending
-    rw [A.pending, rh_pending, B.slot, B.pending, h.pd, hslot, pend_pure _ _ hpre]
+    rw [hlive]; exact hpend
   · -- hsOut
     rw [A.hsOut, rh_hsOut, B.slot, B.hsOut, hslot]
-    exact hsOut_pure _ _ hpre _ h.ho
+    exact hsOut_pure _ _ _ hpre _ h.ho
   · -- hsIn
     rw [A.hsIn, rh_hsIn, B.slot, B.hsIn, hslot]
-    exact hsIn_pure _ _ hpre _ h.hi
+    exact hsIn_pure _ _ _ hpre _ h.hi
   · -- validations
     rw [A.validations, rh_validations, B.slot, hslot]
     by_cases hv : isValidation ev = true
@@ -237,9 +273,9 @@ theorem handler_inv2 {s s1 s2 : PeerSys} {ev : Ev} (h : Inv2 s) (hi1 : Inv1 s2) 
       intro q hq
       rw [val_answer] at hq; cases hq
     · rw [B.validations (by simpa using hv)]
-      exact val_pure _ _ hpre _ h.vl
+      exact val_pure _ _ _ hpre _ h.vl
   · -- well-formed
-    rw [hslot]; exact wf_pure _ _ hpre h.wf
+    rw [hslot]; exact wf_pure _ _ _ hpre h.wf
   · -- closing tasks
     intro hb2
     rw [hslot]
@@ -268,7 +304,7 @@ theorem handler_inv2 {s s1 s2 : PeerSys} {ev : Ev} (h : Inv2 s) (hi1 : Inv1 s2) 
         simpa using this
       by_cases hsd : ∃ t, Out.shutdown t ∈ (handle s.slot ev).2
       · obtain ⟨t, ht⟩ := hsd
-        exact idle_pure _ _ hpre t ht
+        exact idle_pure _ _ _ hpre t ht
       · exfalso
         have hcalm2 := calm_fold (handle s.slot ev).2 s.tasks [] hcalm (fun t ht => hsd ⟨t, ht⟩)
         have ht2 : s2.tasks = ((handle s.slot ev).2.foldl tlF (s.tasks, [])).1 := by
@@ -291,16 +327,16 @@ theorem handler_inv2 {s s1 s2 : PeerSys} {ev : Ev} (h : Inv2 s) (hi1 : Inv1 s2) 
       · exact h.nb hbug
     · rcases bug_fold _ _ _ hbug with h1 | h1
       · simp at h1
-      · exact bug_pure _ _ hpre h1
+      · exact bug_pure _ _ _ hpre h1
   · -- request/answer ledger
-    rw [hlog, lfold_append, hslot, ← ledger_pure _ _ hpre s.tasks]
+    rw [hlog, lfold_append, hslot, ← ledger_pure _ _ _ hpre s.tasks]
     congr 1
     split
     · rw [lfold_append, h.lg]; rfl
     · exact h.lg
   · -- acceptance ledger
     rw [hlog, afold_append, hslot, A.hsIn, rh_hsIn, B.slot, B.hsIn,
-      ← acc_pure _ _ hpre h.wf s.tasks hvt s.hsIn h.hi hpipe]
+      ← acc_pure _ _ _ hpre h.wf s.tasks hvt s.hsIn h.hi hpipe]
     congr 1
     split
     · rw [afold_append, h.ac]; rfl
@@ -309,7 +345,7 @@ theorem handler_inv2 {s s1 s2 : PeerSys} {ev : Ev} (h : Inv2 s) (hi1 : Inv1 s2) 
 -- ------------------------------------------------------------------ all steps
 
 theorem pre_of {s s1 : PeerSys} {ev : Ev} {a : Act} (h : Inv2 s) (he : enabled s a = true)
-    (hn : noLateOpenFailure s a = true) (hev : evOf s a = some (s1, ev)) : Pre s.slot ev = true := by
+    (hev : evOf s a = some (s1, ev)) : Pre s.slot (liveOf s) ev = true := by
   have hc := h.c
   have hrq := h.rq
   have hpd := h.pd
@@ -324,26 +360,14 @@ theorem pre_of {s s1 : PeerSys} {ev : Ev} {a : Act} (h : Inv2 s) (he : enabled s
     obtain ⟨-, rfl⟩ := hev
     simp only [enabled, Bool.and_eq_true, List.contains_iff_mem] at he
     rw [hrq] at he
-    rcases hs : slotSid s.slot with _ | x
-    · rw [hs] at he; simp at he
-    · rw [hs] at he hpd; simp at he
-      simp [Pre, hs, hpd, he.2]
+    have := pendOf_mem he.2
+    simp [Pre, this, hpd]
   case subFailed sid =>
     obtain ⟨-, rfl⟩ := hev
     simp only [enabled, Bool.and_eq_true, List.contains_iff_mem] at he
     rw [hrq] at he
-    rcases hs : slotSid s.slot with _ | x
-    · rw [hs] at he; simp at he
-    · rw [hs] at he hpd; simp at he
-      have hnv : isValidating s.slot = false := by
-        rcases hsl : s.slot with _ | st
-        · rfl
-        · cases st <;> simp only [isValidating]
-          rename_i out inb dir
-          simp only [noLateOpenFailure] at hn
-          rw [hsl] at hn hs
-          cases out <;> simp_all [slotSid]
-      simp [Pre, hs, hpd, he.2, hnv]
+    have := pendOf_mem he.2
+    simp [Pre, this, hpd]
   case subInbound pipe => obtain ⟨-, rfl⟩ := hev; simp_all [Pre, enabled]
   case hsNegotiated d hs auto t =>
     cases d
@@ -372,7 +396,14 @@ theorem pre_of {s s1 : PeerSys} {ev : Ev} {a : Act} (h : Inv2 s) (he : enabled s
     simp [he]
   case timer => obtain ⟨-, rfl⟩ := hev; rfl
   case validation p acc ok sid => obtain ⟨-, rfl⟩ := hev; rfl
-  case cmdOpen sd dk ok sid => obtain ⟨-, rfl⟩ := hev; rfl
+  case cmdOpen sd dk ok sid =>
+    obtain ⟨-, rfl⟩ := hev
+    simp only [Pre, liveOf, liveFn]
+    rcases hsl : s.slot with _ | st
+    · rfl
+    · cases st <;> try rfl
+      rename_i pend
+      cases pend <;> simp [isClosedSome]
   case cmdClose => obtain ⟨-, rfl⟩ := hev; rfl
 
 theorem before_of {s s1 : PeerSys} {ev : Ev} {a : Act} (h : Inv2 s) (he : enabled s a = true)
@@ -385,18 +416,14 @@ theorem before_of {s s1 : PeerSys} {ev : Ev} {a : Act} (h : Inv2 s) (he : enable
     simp only [enabled, Bool.and_eq_true, List.contains_iff_mem] at he
     simp only [reqBefore]
     rw [hrq] at he ⊢
-    rcases hs : slotSid s.slot with _ | x
-    · rfl
-    · rw [hs] at he; simp at he; simp [he.2]
+    rw [pendOf_mem he.2]; simp
   case subFailed sid =>
     obtain ⟨rfl, rfl⟩ := hev
     refine ⟨rfl, rfl, rfl, rfl, rfl, rfl, rfl, Nat.le_refl _, fun _ => ?_, fun _ => rfl⟩
     simp only [enabled, Bool.and_eq_true, List.contains_iff_mem] at he
     simp only [reqBefore]
     rw [hrq] at he ⊢
-    rcases hs : slotSid s.slot with _ | x
-    · rfl
-    · rw [hs] at he; simp at he; simp [he.2]
+    rw [pendOf_mem he.2]; simp
   case hsNegotiated d hs auto t =>
     cases d
     · rcases hin : s.hsIn with _ | ⟨p, b⟩
@@ -491,8 +518,8 @@ theorem task_inv2 {s : PeerSys} {a : Act} (h : Inv2 s) (hi1 : Inv1 (taskStep s a
     · simp only [taskStep]; rw [lfold_append, h.lg]; cases owes s.slot <;> rfl
     · simp only [taskStep]; rw [afold_append, h.ac]; cases accOf s.slot s.hsIn <;> rfl
 
-theorem inv2_step {s : PeerSys} (a : Act) (h : Inv2 s) (he : enabled s a = true) (hp : prompt s a = true)
-    (hn : noLateOpenFailure s a = true) : Inv2 (step s a) := by
+theorem inv2_step {s : PeerSys} (a : Act) (h : Inv2 s) (he : enabled s a = true) (hp : prompt s a = true) :
+    Inv2 (step s a) := by
   have hi1 := inv_step a h.i1 he hp
   rcases hev : evOf s a with _ | ⟨s1, ev⟩
   · have hst : step s a = taskStep s a := by simp only [step, hev]
@@ -505,7 +532,7 @@ theorem inv2_step {s : PeerSys} (a : Act) (h : Inv2 s) (he : enabled s a = true)
       cases d <;> simp_all [enabled]
   · have hst : step s a = post (runHandler s1 ev) a := by simp only [step, hev]
     rw [hst] at hi1 ⊢
-    exact handler_inv2 h hi1 (pre_of h he hn hev) (notice_of hp hev) (pipe_of hev) (before_of h he hev)
+    exact handler_inv2 h hi1 (pre_of h he hev) (notice_of hp hev) (pipe_of hev) (before_of h he hev)
       (after_of _ hev)
 
 theorem inv2_init : Inv2 {} :=
@@ -515,6 +542,6 @@ theorem inv2_init : Inv2 {} :=
 theorem inv2_reach {s : PeerSys} (h : ReachP s) : Inv2 s := by
   induction h with
   | init => exact inv2_init
-  | step a _ he hp _ hn ih => exact inv2_step a ih he hp hn
+  | step a _ he hp _ ih => exact inv2_step a ih he hp
 
 end Litep2pVerif.Notif
